@@ -68,6 +68,11 @@ def m105(r):
         text += " T0:%s /%s T1:%s /%s" % (num(r), num(r).lstrip("-"), num(r), num(r).lstrip("-"))
     if r.random() < 0.7:
         text += " @:%d B@:%d" % (r.randrange(128), r.randrange(128))
+    if r.random() < 0.1:
+        # many hot ends: the line grows beyond 256 characters before its last fields
+        for j in range(8):
+            text += " T%d:%s /%s" % (j, num(r), num(r).lstrip("-"))
+        text += " " + " ".join("@%d:%d" % (j, r.randrange(128)) for j in range(8))
     if r.random() < 0.15:
         vals["W"] = str(r.randrange(10))
         text += " W:%s" % vals["W"]
@@ -92,7 +97,15 @@ def grbl_status(r):
     extras = ["Bf:%d,%d" % (r.randrange(16), r.randrange(255)), "Ov:100,100,100",
               "WCO:%s,%s,%s" % (num(r), num(r), num(r)), "Ln:%d" % r.randrange(99999), "Pn:XYZ", "A:SFM"]
     r.shuffle(extras)
-    fields += extras[:r.randrange(0, 4)]
+    if r.random() < 0.1:
+        # a long status: everything the firmware can report, the feed/speed field last
+        big = ["Bf:%d,%d" % (r.randrange(16), r.randrange(255)), "Ln:%d" % r.randrange(99999), "Ov:100,100,100",
+               "WCO:%s" % ",".join("%d.%06d" % (r.randrange(10 ** 6), r.randrange(10 ** 6)) for _ in range(6)),
+               "Pn:XYZPDHRS", "A:SFM", "Pr:%s" % ",".join("%d.%06d" % (r.randrange(10 ** 6), r.randrange(10 ** 6)) for _ in range(6))]
+        head, tail = fields[:1], fields[1:]
+        fields = head + big + tail
+    else:
+        fields += extras[:r.randrange(0, 4)]
     state = r.choice(["Idle", "Run", "Hold:0", "Jog", "Alarm", "Door:1", "Home"])
     return "<%s|%s>" % (state, "|".join(fields)), vals
 
